@@ -228,6 +228,9 @@ func checkHub(c hubCfg, x *vrt.Exec) []explore.Finding {
 			}
 		} else if t, isParked := parked[name]; isParked {
 			// still blocked at quiescence
+			if _, ended := cbEnd[m]; ended {
+				add("deliver-stuck-after-callback", fmt.Sprintf("Deliver(m%d) still blocked at %s although its callback has finished", m, t.Pending()))
+			}
 			if l.cancelled[name] && len(cbStart[m]) == 0 {
 				add("cancel-ignored", fmt.Sprintf("Deliver(m%d) still blocked at %s although its context was cancelled and nobody took the message", m, t.Pending()))
 			}
@@ -295,6 +298,25 @@ func main() {
 		for _, c := range cfgs {
 			scs = append(scs, hubScenario(c, pb))
 		}
+	}
+	qcfgs := []queueCfg{
+		{capacity: 1, producers: 1, perProd: 2, receivers: 1},
+		{capacity: 1, producers: 2, perProd: 1, receivers: 1},
+		{capacity: 2, producers: 1, perProd: 2, receivers: 2},
+		{capacity: 2, producers: 2, perProd: 1, receivers: 2, cancel: []string{"R1"}},
+		{capacity: 1, producers: 1, perProd: 1, receivers: 1, cancel: []string{"R0"}},
+		{capacity: 2, producers: 1, perProd: 2, receivers: 1, purger: true},
+		{capacity: 1, producers: 1, perProd: 1, receivers: 1, closer: true},
+	}
+	if run.Thorough() {
+		qcfgs = append(qcfgs,
+			queueCfg{capacity: 2, producers: 2, perProd: 2, receivers: 2},
+			queueCfg{capacity: 2, producers: 2, perProd: 1, receivers: 1, purger: true, closer: true},
+			queueCfg{capacity: 1, producers: 2, perProd: 1, receivers: 2, cancel: []string{"R0"}, closer: true},
+		)
+	}
+	for _, c := range qcfgs {
+		scs = append(scs, queueScenario(c, pb))
 	}
 	explore.Main(run, scs, evid.Pick(run, 100*time.Second, 15*time.Minute))
 	run.Assume("scheduling points at every channel/lock/atomic/select operation; data races are decided separately by C14")
